@@ -229,6 +229,44 @@ func partition(r *gen.Rng, chunks []string, k int) []string {
 	return out
 }
 
+func builtinExtensions() []string {
+	q := "type Query { a: Int } "
+	return []string{
+		q + "extend type __Type { extra: Int }",
+		q + "extend type __Type { owner: Missing }",
+		q + "extend type __Type { owner: [Missing!]! }",
+		q + "extend type __Schema { cfg: SomeInput } input SomeInput { a: Int }",
+		q + "extend type __Type { f(a: Query): Int }",
+		q + "extend type __Type { f(a: Missing): Int }",
+		q + "extend type __Field { name: Int }",
+		q + "extend type __Type { __x: Int }",
+		q + "extend scalar String @nope",
+		q + "extend scalar Int @deprecated",
+		q + "directive @tag(n: Int!) on SCALAR | ENUM | OBJECT extend scalar String @tag",
+		q + "directive @tag(n: Int!) on SCALAR | ENUM | OBJECT extend scalar String @tag(n: 1)",
+		q + "directive @tag on SCALAR extend enum __TypeKind @tag",
+		q + "extend enum __TypeKind { EXTRA }",
+		q + "extend enum __TypeKind { SCALAR }",
+		q + "interface Node { id: ID! } extend type __Type implements Node",
+		q + "interface Node { name: String } extend type __Type implements Node",
+		q + "interface Node { name: Int } extend type __Type implements Node",
+		q + "extend type __Type implements Missing",
+		q + "extend type __Type implements Query",
+		q + "extend input __Nope { a: Int }",
+		q + "extend union __U = Query",
+		q + "union _Entity = Missing",
+		q + "extend type Query { e: __Type @deprecated(reason: 1) }",
+		q + "extend type Query { e(a: __TypeKind = NOPE): Int }",
+		q + "extend type Query { e(a: __TypeKind = SCALAR): __Schema! }",
+		q + "directive @include(if: Boolean!) on FIELD extend type Query { e: Int @include(if: true) }",
+		q + "directive @skip(unless: Int) on FIELD_DEFINITION extend type Query { e: Int @skip(unless: 1) }",
+		q + "extend type __Directive @deprecated",
+		q + "scalar String",
+		q + "type __Type { a: Int }",
+		q + "extend schema @nope",
+	}
+}
+
 func runC07(c *core.Ctx) {
 	const thm = "C07_* (props/C07.v); model op load = Ops.dump_load_with (prelude regenerated from /repo)"
 	c.ReplayKnown()
@@ -261,6 +299,11 @@ func runC07(c *core.Ctx) {
 		g.MaxDepth = 1
 		g.SDoc()
 		cases = append(cases, cs{[]string{gen.Render(c.Rng, g.Toks, 0)}, "", ""})
+	}
+	// extensions of the built-in types and uses of the built-in directives: whatever a user source
+	// adds to the prelude is subject to the same rules as everything else
+	for _, sdl := range builtinExtensions() {
+		cases = append(cases, cs{[]string{sdl}, "", ""})
 	}
 	var nOK, nErr int64
 	faultHits := map[string]int64{}
